@@ -26,6 +26,12 @@ SHARDS = {"quick": 1, "thorough": 1}  # one shard; it runs 16 session subprocess
 BUDGET = {"quick": 100.0, "thorough": 900.0}  # ceilings (heavily loaded machine); typical use is 15-25 s / 2-4 min
 WORKERS = 24  # sessions mostly sleep (alarms, holds): more children than cores
 REQUIRE = {
+    "SIZE_bursts_settled": 10,
+    "SIZE_resize_and_key_in_one_batch": 4,
+    "SIZE_widget_sizes_checked": 200,
+    "RST_termios_checked_after_stty_between_runs": 20,
+    "RST_termios_checked_after_signal_keys_changed_between_runs": 8,
+    "RST_termios_checked_after_other_settings_changed_between_runs": 12,
     "EXIT_group_shape_checked": 40,
     "EXIT_group_shape_checked:eg1_boom": 8,
     "EXIT_group_shape_checked:beg1_base": 8,
@@ -98,7 +104,7 @@ RULE = (
     "tornado/twisted/trio/zmq, screen with or without hook_event_loop, pop_ups on/off, mouse tracking/bracketed paste/"
     "focus reporting on or off, initial signal dispositions default | application functions | SIG_IGN (all four or one signal)) x scripted session (keys, SGR "
     "mouse presses, focus/paste sequences, SIGWINCH with a real size change, 2 alarms, watch_pipe write, watch_file "
-    "write, pop-up open/close, MainLoop.run() called two or three times on the same MainLoop/event-loop/screen objects (every loop but twisted; each run ended by a fault kind or the scripted exit and judged separately), several keys in one write whose first key makes a callback replace loop.widget by a page of other selectability / other handled keys, keys split over two writes (ESC|[A, a split UTF-8 char, a split SGR mouse report, a split f5) "
+    "write, pop-up open/close, resize bursts (2-3 real size changes in a row) followed by a key written inside get_input()'s resize throttle, stty changes of the terminal between two runs (iflag/lflag bits, erase/kill/eof, intr/quit/start/stop/susp), MainLoop.run() called two or three times on the same MainLoop/event-loop/screen objects (every loop but twisted; each run ended by a fault kind or the scripted exit and judged separately), several keys in one write whose first key makes a callback replace loop.widget by a page of other selectability / other handled keys, keys split over two writes (ESC|[A, a split UTF-8 char, a split SGR mouse report, a split f5) "
     "with the second write made after the loop read the first and the loop then held waiting > complete_wait; fixed orders + "
     "seeded shuffles in thorough) x injection (none, or ExitMainLoop / Boom(Exception) / Halt(BaseException) / SystemExit / exception groups (of one Boom, one ExitMainLoop, one BaseException, two members, nested one-in-one) "
     "at the k-th invocation of one of the 8 callback sites, enumerated from the fault-free run of the same "
@@ -165,6 +171,9 @@ SPLIT = {
     "s_m1": ("\x1b[<0;4", ";3M", [["mouse press", 1, 3, 2]]),
     "s_f5": ("\x1b[1", "5~", ["f5"]),
 }
+# resize bursts: the terminal changes size 2-3 times in a row, then a key is written without waiting for the redraw
+BURSTS = {"@burst2": ([[50, 12], [60, 14]], "a"), "@burst3": ([[44, 11], [52, 13], [36, 9]], "x")}
+SCRIPT_Z = ["a", "@burst2", "up", "m1", "@alarm0", "@burst3", "bz", "m3", "@alarm1", "@winch", "a", "Q"]
 COMPLETE_WAIT = 0.4  # generous, so that a slow driver thread does not let a split key time out for real
 HOLD = COMPLETE_WAIT + 0.12  # the loop is kept waiting this long after the last split's first fragment was read
 SCRIPT_P = ["a", "s_up", "bz", "s_u8", "@alarm0", "s_m1", "s_f5", "@hold", "up", "@alarm1", "Q"]
@@ -201,6 +210,8 @@ def build_script(tokens, cfg):
             steps.append(["winch", [30, 8], t])
         elif t == "@winch2":
             steps.append(["winch", [36, 9], t])
+        elif t in BURSTS:
+            steps.append(["burst", {"sizes": BURSTS[t][0], "key": BURSTS[t][1], "gap": 0.03}, t])
         elif t == "@pipe":
             steps.append(["pipe", "P", t])
         elif t == "@file":
@@ -264,6 +275,8 @@ def expected_keys(spec):
             out.extend(TOK[st[2]][1])
         elif st[0] == "split":
             out.extend(SPLIT[st[2]][2])
+        elif st[0] == "burst":
+            out.extend(list(BURSTS[st[2]][1]))
     return out
 
 
@@ -323,6 +336,10 @@ def judge(spec, res, ctx, base_rst=None):  # noqa: C901, PLR0912, PLR0915
     def add_rst(detail, msg):
         # a restoration failure that the fault-free session of the same configuration shows too does not depend on the
         # exit path: one signature for it; otherwise the exit path (not the exact callback) names the mechanism
+        if detail.startswith("termios|changed-between-runs|"):
+            # defined by what changed between the two sessions, not by how either of them ended
+            v.append((f"C12|{cfg_tag(spec)}|RST|{detail}|any-exit-path", msg))
+            return
         if not inj or (base_rst is not None and detail in base_rst):
             path = "any-exit-path"
         elif spec.get("rst_any_callback"):
@@ -487,6 +504,43 @@ def judge(spec, res, ctx, base_rst=None):  # noqa: C901, PLR0912, PLR0915
             add("ORD", "batch-not-delivered", f"pending {pending!r} stage {stage}")
         ctx.count("ORD_sessions_checked")
 
+    # ---------------- SIZE: after a size change the loop has settled on, input and redraws use the terminal's size
+    lim = inj_pos if reached else len(log)
+    cur_size = list(spec["size"])
+    changed = False  # the terminal size changed at least once
+    resize_seen = True  # the filter saw 'window resize' after the last size change
+    checking = False
+    prev_settled = False
+    size_bad = False
+    for idx in range(lim):
+        e = log[idx]
+        s_ = e["site"]
+        if s_ == "resized":
+            cur_size, changed, resize_seen, checking = list(e["size"]), True, False, False
+        elif s_ == "filter":
+            if "window resize" in e["keys"]:
+                resize_seen = True
+                if len(e["keys"]) > 1:
+                    ctx.count("SIZE_resize_and_key_in_one_batch")
+        elif s_ == "settled":
+            prev_settled = bool(e["ok"])
+            k_ = spec["script"][e["n"]][0] if e["n"] < len(spec["script"]) else ""
+            if k_ == "burst":
+                ctx.count("SIZE_bursts_settled" if e["ok"] else "SIZE_bursts_not_settled")
+        elif s_ == "step":
+            if e["kind"] in ("keys", "split") and changed and prev_settled:
+                # the previous step (a resize, a burst + key, or later input) was consumed and redrawn: from here on the
+                # loop must know the terminal's current size
+                if not resize_seen and not size_bad:
+                    add("ORD", "window-resize-never-reached-the-filter", f"the terminal became {cur_size} but no 'window resize' reached the input filter before the next input step")
+                    size_bad = True
+                checking = True
+        elif checking and s_ in ("keypress", "mouse", "render") and e.get("w") in ("M", "N", "T") and not size_bad:
+            ctx.count("SIZE_widget_sizes_checked")
+            if e["size"] != cur_size:
+                add("RDW" if s_ == "render" else "ORD", f"stale-terminal-size-at-{s_}", f"{s_} got size {e['size']} but the terminal is {cur_size} since an earlier, settled size change")
+                size_bad = True
+
     # ---------------- RDW: logical redraw rule
     limit = inj_pos if reached else len(log)
     vt = VT(spec["size"][0], spec["size"][1])
@@ -640,9 +694,25 @@ def judge(spec, res, ctx, base_rst=None):  # noqa: C901, PLR0912, PLR0915
         bad.append("sgr")
     for b in bad:
         add_rst(f"terminal:{b}", f"final terminal state: {b} (modes={sorted(t.modes)}, alt={t.alt_screen}, cursor_visible={t.cursor_visible}); tail={data[-80:]!r}")
+    if spec.get("stty_applied"):
+        ctx.count("RST_termios_checked_after_stty_between_runs")
+        if any(n in SIGNAL_KEY_STTY for n in spec["stty_applied"]):
+            ctx.count("RST_termios_checked_after_signal_keys_changed_between_runs")
+        if any(n not in SIGNAL_KEY_STTY for n in spec["stty_applied"]):
+            ctx.count("RST_termios_checked_after_other_settings_changed_between_runs")
     if not res["termios_equal"]:
-        diff = [n for n, (x, y) in enumerate(zip(res["termios_before"], res["termios_after"])) if x != y]
-        add_rst("termios", f"tcgetattr differs in fields {diff}: before lflag={res['termios_before'][3]:#x} after lflag={res['termios_after'][3]:#x}")
+        tb, ta = res["termios_before"], res["termios_after"]
+        diff = [n for n, (x, y) in enumerate(zip(tb, ta)) if x != y]
+        ccdiff = [i for i, (x, y) in enumerate(zip(tb[6], ta[6])) if x != y]
+        detail = "termios"
+        if spec.get("stty_applied"):
+            # the user changed the tty between two sessions: this run must restore what IT began with
+            import termios as _t
+
+            sigkeys = {_t.VINTR, _t.VQUIT, _t.VSTART, _t.VSTOP, _t.VSUSP}
+            only_sigkeys = diff == [6] and set(ccdiff) <= sigkeys
+            detail = "termios|changed-between-runs|" + ("signal-keys-forced-back-to-first-session-values" if only_sigkeys else "settings-of-this-session-not-restored")
+        add_rst(detail, f"tcgetattr differs from what this run began with in fields {diff} (cc indices {ccdiff}): before iflag={tb[0]:#x} lflag={tb[3]:#x} cc={[tb[6][i] for i in ccdiff]!r}, after iflag={ta[0]:#x} lflag={ta[3]:#x} cc={[ta[6][i] for i in ccdiff]!r}; stty between runs: {spec.get('stty_applied')}")
     for name, d in sorted(res["signals"].items()):
         if d["same"]:
             continue
@@ -701,6 +771,12 @@ def plan_configs(ctx):
         for lp in LOOPS:
             plans.append((base_cfg(loop=lp, handlers=ign[lp]), SCRIPT_W, "few" if lp in ("select", "twisted") else "min"))
         plans.append((base_cfg(hook=False, handlers="ign"), SCRIPT_W, "min"))
+        # resize bursts followed by a key inside get_input()'s resize throttle (screen without external loop support), and
+        # the same bursts on hooked screens
+        plans.append((base_cfg(hook=False), SCRIPT_Z, "few"))
+        plans.append((base_cfg(hook=False, pop_ups=True), SCRIPT_Z, "min"))
+        for lp in ("select", "asyncio", "trio"):
+            plans.append((base_cfg(loop=lp), SCRIPT_Z, "min"))
         plans.append((base_cfg(), SCRIPT_W, "first"))
         return plans
     for lp in LOOPS:
@@ -724,6 +800,10 @@ def plan_configs(ctx):
     plans.append((base_cfg(hook=False, pop_ups=True), SCRIPT_A, "full"))
     plans.append((base_cfg(hook=False, handlers="custom", paste=False), SCRIPT_B, "ends"))
     plans.append((base_cfg(hook=False), SCRIPT_W, "full"))
+    plans.append((base_cfg(hook=False), SCRIPT_Z, "full"))
+    plans.append((base_cfg(hook=False, pop_ups=True, handlers="custom"), SCRIPT_Z, "ends"))
+    for lp in LOOPS:
+        plans.append((base_cfg(loop=lp), SCRIPT_Z, "ends"))
     plans.append((base_cfg(hook=False, pop_ups=True), SCRIPT_WP, "ends"))
     plans.append((base_cfg(hook=False, handlers="ign"), SCRIPT_W, "ends"))
     plans.append((base_cfg(hook=False, handlers="ign:SIGTSTP"), SCRIPT_B, "first"))
@@ -844,6 +924,7 @@ def run_views(spec, res):
         spec_k.pop("more_runs", None)
         if k:
             spec_k["run_ctx"] = f"|rerun-after-{prev}"
+            spec_k["stty_applied"] = list((spec["more_runs"][k - 1].get("stty")) or [])
         res_k = {
             "spec": spec_k,
             "log": res["log"][rec["lo"] : rec["hi"]],
@@ -851,7 +932,7 @@ def run_views(spec, res):
             "counts": rec["counts"],
             "outcome": rec["outcome"],
             "master": res["master"][rec["master_lo"] : rec["master_hi"]],
-            "termios_before": res["termios_before"],
+            "termios_before": rec.get("termios_before", res["termios_before"]),  # the settings THAT run began with
             "termios_after": rec["termios_after"],
             "termios_equal": rec["termios_equal"],
             "signals": rec["signals"],
@@ -957,6 +1038,8 @@ def _truncated(spec, res):
     return cand
 
 
+STTY_SETTINGS = ["-ixon", "ixoff", "-icrnl", "-echoe", "erase=^H", "kill=^X", "eof=^E"]  # not the signal keys
+SIGNAL_KEY_STTY = ["intr=^X", "quit=^T", "start=^W", "stop=^Y", "susp=^B"]
 RERUN_LOOPS = ("select", "asyncio", "tornado", "trio", "zmq")  # a Twisted reactor cannot be restarted
 SCRIPT_R1 = ["a", "bz", "m1", "@alarm0", "@pipe", "@file", "up", "@alarm1", "Q"]
 SCRIPT_R2 = ["a", "up", "@alarm0", "m3", "bz", "Q"]
@@ -996,9 +1079,13 @@ def rerun_specs(ctx):
                     return None
                 return {"site": f[0], "k": pts[f[0]], "kind": f[1]}
             spec = make_spec(cfg, SCRIPT_R1, inj(f1, R1_POINTS))
+            # what the user's `stty` does to the terminal between two sessions: nothing / other settings / signal keys / both
+            n = len(out)
+            stty2 = ([], STTY_SETTINGS[:3] + STTY_SETTINGS[4:5], SIGNAL_KEY_STTY[:2], [])[n % 4]
+            stty3 = ([], STTY_SETTINGS[3:4] + STTY_SETTINGS[5:], [], SIGNAL_KEY_STTY[2:] + STTY_SETTINGS[:1])[n % 4]
             spec["more_runs"] = [
-                {"script": build_script(SCRIPT_R2, cfg), "tokens": SCRIPT_R2, "inject": inj(f2, R2_POINTS), "alarms": [0.07]},
-                {"script": build_script(SCRIPT_R3, cfg), "tokens": SCRIPT_R3, "inject": None, "alarms": [0.07]},
+                {"script": build_script(SCRIPT_R2, cfg), "tokens": SCRIPT_R2, "inject": inj(f2, R2_POINTS), "alarms": [0.07], "stty": stty2},
+                {"script": build_script(SCRIPT_R3, cfg), "tokens": SCRIPT_R3, "inject": None, "alarms": [0.07], "stty": stty3},
             ]
             out.append(spec)
     return out
@@ -1011,7 +1098,7 @@ def rst_details(vs):
 def summary(res):
     """what must agree between a forked-from-template child and a brand-new interpreter (which callback a render-indexed
     injection interrupts is timing dependent, so per-site counts are compared for fault-free sessions only)"""
-    counts = None if res["spec"].get("inject") else {k: v for k, v in res["counts"].items() if k != "render"}
+    counts = None if res["spec"].get("inject") else {k: v for k, v in res["counts"].items() if k not in ("render", "filter")}  # (how input is batched into filter calls and how often render runs is timing dependent)
     return (res["outcome"]["how"], res["outcome"].get("same_object"), counts, res["termios_equal"], res["started_after"], sorted((n, d["same"]) for n, d in res["signals"].items()))
 
 
